@@ -524,7 +524,13 @@ pub fn spell(rng: &mut Rng, v: &V, toks: &[Tok], o: &Opts) -> Spelled {
         }
     }
     if o.pert == Some(Pert::Garbage) && cut == toks.len() {
-        text.push_str(*rng.pick(&["x", " x", "?", "#", "é", " 0", "z9"]));
+        // (the library's blanks are the ASCII ones: Unicode look-alike spaces and the vertical tab are ordinary characters)
+        const UBLANKS: &[&str] = &["\u{a0}", "\u{3000}", "\u{2003}", "\u{85}", "\u{b}", "\u{2028}", "\u{202f}", " \u{a0}", "\u{a0} ", "\u{feff}", "\u{200b}"];
+        match rng.below(4) {
+            0 => text.push_str(*rng.pick(UBLANKS)),
+            1 => text = format!("{}{}", *rng.pick(UBLANKS), text),
+            _ => text.push_str(*rng.pick(&["x", " x", "?", "#", "é", " 0", "z9"])),
+        }
         pert_applied = true;
     }
     if o.pert == Some(Pert::Leftover) && cut == toks.len() {
@@ -833,8 +839,8 @@ pub fn gen_picture(rng: &mut Rng, ty: Ty, lossless: bool) -> Option<GenPic> {
 pub fn canonical_pictures(ty: Ty) -> &'static [&'static str] {
     match ty {
         Ty::Date => &["YYYY-MM-DD", "DD/MM/YYYY", "YYYY MON DD", "DAY, DD MONTH YYYY", "YYYYMMDD", "YYYY DDD", "YYYY-DDD", "DY YYYY.MM.DD DDD", "D YYYY MON DD", "Month DD, YYYY", "dd-mon-yyyy", "YYYYDDD", "MM\\DD\\YYYY;dy"],
-        Ty::Time => &["HH24:MI:SS.FF", "HH:MI:SS AM", "A.M. HH12.MI.SS.FF6", "HH24MISS", "HH24:MI:SS.FF3", "SS:MI:HH24", "PM HH:MI", "HH24:MI:SS.FF9", "HH24:MI", "HH24", "hh24-mi-ss", "HH12:MI:SS.FF7 P.M.", "MI:SS.FF2", "FF6", "MI:SS P.M.", "AM", "pm MI"],
-        Ty::Ts => &["YYYY-MM-DD HH24:MI:SS.FF", "YYYY-MM-DDTHH24:MI:SS.FF9", "DD-MON-YYYY HH:MI:SS.FF AM", "YYYYMMDDHH24MISSFF6", "DAY DD MONTH YYYY HH12 P.M. MI SS", "YYYY/DDD HH24:MI", "YYYY-MM-DD HH24:MI:SS.FF7", "yyyy.mm.dd hh24:mi:ss.ff3", "YYYY-MM-DD", "YYYY-MM-DD PM", "YYYY-MM-DD MI A.M."],
+        Ty::Time => &["HH24:MI:SS.FF", "HH:MI:SS AM", "A.M. HH12.MI.SS.FF6", "HH24MISS", "HH24:MI:SS.FF3", "SS:MI:HH24", "PM HH:MI", "HH24:MI:SS.FF9", "HH24:MI", "HH24", "hh24-mi-ss", "HH12:MI:SS.FF7 P.M.", "MI:SS.FF2", "FF6", "MI:SS P.M.", "AM", "pm MI", "HH24:MI:SS.FF6"],
+        Ty::Ts => &["YYYY-MM-DD HH24:MI:SS.FF", "YYYY-MM-DDTHH24:MI:SS.FF9", "DD-MON-YYYY HH:MI:SS.FF AM", "YYYYMMDDHH24MISSFF6", "DAY DD MONTH YYYY HH12 P.M. MI SS", "YYYY/DDD HH24:MI", "YYYY-MM-DD HH24:MI:SS.FF7", "yyyy.mm.dd hh24:mi:ss.ff3", "YYYY-MM-DD", "YYYY-MM-DD PM", "YYYY-MM-DD MI A.M.", "YYYY-MM-DD HH24:MI:SS.FF6"],
         Ty::Ora => &["YYYY-MM-DD HH24:MI:SS", "DD-MON-YYYY HH:MI:SS AM", "YYYYMMDDHH24MISS", "YYYY DDD HH24-MI-SS DY", "YYYY-MM-DD", "Month DD YYYY, HH12:MI A.M."],
         Ty::YM => &["YYYY-MM", "YY-MM", "Y MM", "YYYY/MM", "MM-YYYY", "MM", "YYYY", "YYY.MM", " YYYY-MM"],
         Ty::DT => &["DD HH24:MI:SS.FF", "DD HH24:MI:SS.FF6", "DD HH24:MI:SS", "DD HH24 MI SS FF9", "HH24:MI:SS", "DD", "HH24:MI:SS.FF DD", "MI:SS.FF3", "DD HH24:MI:SS.FF7", "FF6 SS MI HH24 DD"],
